@@ -387,6 +387,47 @@ func Schemas2020(thorough bool) *Set {
 			s.Add("Prec", Obj(KV{"additionalProperties", `{"$ref":"#"}`}, a))
 		}
 	}
+	// contains / minContains / maxContains next to the other array keywords and inside conditionals
+	for _, c := range []string{`false`, `{"const":1}`, `{"type":"integer"}`} {
+		for _, mm := range [][2]string{{"0", "0"}, {"0", "1"}, {"1", "1"}, {"", "1"}, {"0", ""}, {"2", ""}} {
+			kv := []KV{{"contains", c}}
+			if mm[0] != "" {
+				kv = append(kv, KV{"minContains", mm[0]})
+			}
+			if mm[1] != "" {
+				kv = append(kv, KV{"maxContains", mm[1]})
+			}
+			for _, ex := range [][]KV{{{"prefixItems", `[true]`}}, {{"prefixItems", `[{"type":"string"}]`}, {"unevaluatedItems", `false`}}, {{"uniqueItems", `true`}}, {{"prefixItems", `[true]`}, {"items", `false`}},
+				{{"prefixItems", `[true]`}, {"unevaluatedItems", `false`}}, {{"minItems", `2`}}} {
+				s.Add("Pcont", Obj(append(append([]KV(nil), kv...), ex...)...))
+			}
+			s.Add("Pcont", `{"if":`+Obj(kv...)+`,"then":{"maxItems":1},"else":{"minItems":1}}`)
+			s.Add("Pcont", `{"allOf":[`+Obj(kv...)+`],"unevaluatedItems":false}`)
+			s.Add("Pcont", `{"not":`+Obj(kv...)+`}`)
+		}
+	}
+	// three branches
+	br := []string{`{"type":"integer"}`, `{"minimum":1}`, `{"required":["a"]}`, `{"properties":{"a":{"type":"integer"}}}`, `true`, `false`}
+	for _, k := range []string{"allOf", "anyOf", "oneOf"} {
+		for i, a := range br {
+			for j, b := range br {
+				for l, c := range br {
+					if (i+2*j+3*l)%3 == 0 || a == b || a == c {
+						s.Add("Pthree", `{"`+k+`":[`+a+`,`+b+`,`+c+`]}`)
+						if k != "allOf" {
+							s.Add("Pthree", `{"`+k+`":[`+a+`,`+b+`,`+c+`],"unevaluatedProperties":false}`)
+						}
+					}
+				}
+			}
+		}
+	}
+	// recursion with a sibling that looks at the same object, against deep instances
+	s.Add("Prec", `{"properties":{"a":{"$ref":"#"}},"additionalProperties":{"type":"integer"}}`)
+	s.Add("Prec", `{"properties":{"a":{"$ref":"#"}},"unevaluatedProperties":{"type":"string"}}`)
+	s.Add("Prec", `{"items":{"$ref":"#"},"properties":{"a":{"$ref":"#"}},"type":["array","object","integer"]}`)
+	s.Add("Prec", `{"prefixItems":[{"$ref":"#"}],"unevaluatedItems":{"type":"string"},"type":"array"}`)
+	s.Add("Prec", `{"anyOf":[{"type":"integer"},{"type":"array","items":{"$ref":"#"}},{"type":"object","additionalProperties":{"$ref":"#"}}]}`)
 	// boolean schemas in every subschema slot are covered by pool[0:2] in every applicator.
 	return s
 }
